@@ -94,6 +94,9 @@ def run(ctx):
     ctx.add_sample({"policy": blocks[-1][0], "scenario": blocks[-1][1]})
     rng.shuffle(blocks)
     n, acc = pipeline.drive_vsched(ctx, exe, blocks, SPEC_DIR, "ThreadsTrace", "Trace.cfg", label="th")
+    # data-race scan on the ThreadSanitizer build (what a serialising scheduler cannot see)
+    scan = [b for b in blocks if not b[0].startswith("dfs")][: (120 if not thorough else 1500)]
+    pipeline.race_scan(ctx, "threads_scenario", "threads_scenario.c", scan)
     ctx.evaluations += n
     ctx.distinct_extra += max(0, n - len(blocks))
     ctx.extra["executions"] = n
